@@ -17,7 +17,7 @@
 #include <unistd.h>
 
 static unsigned long long rng_state = 0; static int sched_on = -1; static int maxdelay = 300; static FILE* trace = NULL;
-static int wrank = -1; static int late_us = 0;
+static int wrank = -1; static int late_us = 0; static int defer_on = 0;
 static unsigned long long rnd(void) { rng_state ^= rng_state << 13; rng_state ^= rng_state >> 7; rng_state ^= rng_state << 17; return rng_state; }
 static void init_sched(void) {
     if (sched_on >= 0) return;
@@ -25,11 +25,29 @@ static void init_sched(void) {
     long seed = s ? atol(s) : 0; sched_on = seed != 0;
     if (d) maxdelay = atoi(d);
     { const char* l = getenv("VERIF_SCHED_LATE_US"); if (l) late_us = atoi(l); }
+    { const char* l = getenv("VERIF_SCHED_DEFER"); if (l && sched_on) defer_on = atoi(l); }
     PMPI_Comm_rank(MPI_COMM_WORLD, &wrank);
     rng_state = 0x9E3779B97F4A7C15ULL ^ ((unsigned long long)seed * 1000003ULL + (unsigned long long)(wrank + 1) * 7919ULL);
     for (int i = 0; i < 8; i++) rnd();
     if (t) { char fn[512]; snprintf(fn, sizeof fn, "%s.%d", t, wrank); trace = fopen(fn, "w"); }
 }
+/* deferred sends (VERIF_SCHED_DEFER=1, used by one scenario only): a nonblocking send may be buffered and put on the wire much
+   later; a collective entered in between says nothing about its delivery.  Half of the Isends are copied and held back; they
+   are issued at the rank's next point-to-point / wait call, or - after a pause - when the next collective has returned. */
+typedef struct { void* copy; int count; MPI_Datatype dt; int dest, tag; MPI_Comm comm; } deferred_t;
+static deferred_t* dq = NULL; static int dq_n = 0, dq_cap = 0;
+static MPI_Request* dreq = NULL; static void** dbuf = NULL; static int dreq_n = 0, dreq_cap = 0;
+static void flush_deferred(void) {
+    for (int i = 0; i < dq_n; i++) {
+        if (dreq_n == dreq_cap) { dreq_cap = dreq_cap ? 2 * dreq_cap : 64; dreq = (MPI_Request*)realloc(dreq, sizeof(MPI_Request) * (size_t)dreq_cap);
+                                  dbuf = (void**)realloc(dbuf, sizeof(void*) * (size_t)dreq_cap); }
+        dbuf[dreq_n] = dq[i].copy;
+        PMPI_Isend(dq[i].copy, dq[i].count, dq[i].dt, dq[i].dest, dq[i].tag, dq[i].comm, &dreq[dreq_n++]);
+    }
+    dq_n = 0;
+}
+static void after_collective(void) { if (dq_n) { usleep((useconds_t)(late_us > 0 ? late_us : 20000)); flush_deferred(); } }
+
 static void maybe_delay(void) { if (sched_on && maxdelay > 0 && (rnd() % 3) == 0) usleep((useconds_t)(rnd() % (unsigned)maxdelay)); }
 static void tr(const char* op, int peer, int tag, MPI_Comm comm, int count) {
     if (!trace) return; int sz = 0; PMPI_Comm_size(comm, &sz);
@@ -52,22 +70,31 @@ static int choose_source(int tag, MPI_Comm comm, MPI_Status* st) {
 }
 
 int MPI_Probe(int source, int tag, MPI_Comm comm, MPI_Status* status) {
-    init_sched();
+    init_sched(); flush_deferred();
     if (sched_on && source == MPI_ANY_SOURCE) { MPI_Status st; int src = choose_source(tag, comm, &st); if (status != MPI_STATUS_IGNORE) *status = st; tr("probe_any", src, tag, comm, 0); return MPI_SUCCESS; }
     int rc = PMPI_Probe(source, tag, comm, status); tr(source == MPI_ANY_SOURCE ? "probe_any" : "probe", status != MPI_STATUS_IGNORE ? status->MPI_SOURCE : source, tag, comm, 0); return rc;
 }
 int MPI_Recv(void* buf, int count, MPI_Datatype dt, int source, int tag, MPI_Comm comm, MPI_Status* status) {
-    init_sched();
+    init_sched(); flush_deferred();
     if (sched_on && source == MPI_ANY_SOURCE) { MPI_Status st; int src = choose_source(tag, comm, &st); tr("recv_any", src, tag, comm, count); return PMPI_Recv(buf, count, dt, src, tag, comm, status); }
     int rc = PMPI_Recv(buf, count, dt, source, tag, comm, status); tr(source == MPI_ANY_SOURCE ? "recv_any" : "recv", source, tag, comm, count); return rc;
 }
 int MPI_Isend(const void* buf, int count, MPI_Datatype dt, int dest, int tag, MPI_Comm comm, MPI_Request* req) {
-    init_sched(); maybe_delay();
+    init_sched();
+    if (defer_on && (rnd() % 2) == 0) {
+        int tsz = 0; PMPI_Type_size(dt, &tsz); size_t nb = (size_t)tsz * (size_t)(count > 0 ? count : 0);
+        void* cp = malloc(nb ? nb : 1); if (nb) memcpy(cp, buf, nb);
+        if (dq_n == dq_cap) { dq_cap = dq_cap ? 2 * dq_cap : 64; dq = (deferred_t*)realloc(dq, sizeof(deferred_t) * (size_t)dq_cap); }
+        dq[dq_n].copy = cp; dq[dq_n].count = count; dq[dq_n].dt = dt; dq[dq_n].dest = dest; dq[dq_n].tag = tag; dq[dq_n].comm = comm; dq_n++;
+        tr("isend_deferred", dest, tag, comm, count);
+        *req = MPI_REQUEST_NULL; return MPI_SUCCESS;
+    }
+    flush_deferred(); maybe_delay();
     if (sched_on && late_us > 0 && (rnd() % 8) == 0) usleep((useconds_t)(rnd() % (unsigned)late_us));      /* a message that is sent much later than its neighbours */
     tr("isend", dest, tag, comm, count); return PMPI_Isend(buf, count, dt, dest, tag, comm, req);
 }
 int MPI_Send(const void* buf, int count, MPI_Datatype dt, int dest, int tag, MPI_Comm comm) {
-    init_sched(); maybe_delay(); tr("send", dest, tag, comm, count); return PMPI_Send(buf, count, dt, dest, tag, comm);
+    init_sched(); flush_deferred(); maybe_delay(); tr("send", dest, tag, comm, count); return PMPI_Send(buf, count, dt, dest, tag, comm);
 }
 int MPI_Irecv(void* buf, int count, MPI_Datatype dt, int source, int tag, MPI_Comm comm, MPI_Request* req) {
     init_sched();
@@ -75,20 +102,31 @@ int MPI_Irecv(void* buf, int count, MPI_Datatype dt, int source, int tag, MPI_Co
     tr("irecv", source, tag, comm, count); return PMPI_Irecv(buf, count, dt, source, tag, comm, req);
 }
 int MPI_Allreduce(const void* s, void* r, int count, MPI_Datatype dt, MPI_Op op, MPI_Comm comm) {
-    init_sched(); maybe_delay(); tr("allreduce", -1, -1, comm, count); return PMPI_Allreduce(s, r, count, dt, op, comm);
+    init_sched(); maybe_delay(); tr("allreduce", -1, -1, comm, count); { int rc_ = PMPI_Allreduce(s, r, count, dt, op, comm); after_collective(); return rc_; }
 }
 int MPI_Allgather(const void* s, int sc, MPI_Datatype st, void* r, int rc, MPI_Datatype rt, MPI_Comm comm) {
-    init_sched(); maybe_delay(); tr("allgather", -1, -1, comm, sc); return PMPI_Allgather(s, sc, st, r, rc, rt, comm);
+    init_sched(); maybe_delay(); tr("allgather", -1, -1, comm, sc); { int rc_ = PMPI_Allgather(s, sc, st, r, rc, rt, comm); after_collective(); return rc_; }
 }
 int MPI_Allgatherv(const void* s, int sc, MPI_Datatype st, void* r, const int* rc, const int* displs, MPI_Datatype rt, MPI_Comm comm) {
-    init_sched(); maybe_delay(); tr("allgatherv", -1, -1, comm, sc); return PMPI_Allgatherv(s, sc, st, r, rc, displs, rt, comm);
+    init_sched(); maybe_delay(); tr("allgatherv", -1, -1, comm, sc); { int rc_ = PMPI_Allgatherv(s, sc, st, r, rc, displs, rt, comm); after_collective(); return rc_; }
 }
-int MPI_Barrier(MPI_Comm comm) { init_sched(); maybe_delay(); tr("barrier", -1, -1, comm, 0); return PMPI_Barrier(comm); }
-int MPI_Bcast(void* b, int count, MPI_Datatype dt, int root, MPI_Comm comm) { init_sched(); maybe_delay(); tr("bcast", root, -1, comm, count); return PMPI_Bcast(b, count, dt, root, comm); }
+int MPI_Barrier(MPI_Comm comm) { init_sched(); maybe_delay(); tr("barrier", -1, -1, comm, 0); { int rc_ = PMPI_Barrier(comm); after_collective(); return rc_; } }
+int MPI_Bcast(void* b, int count, MPI_Datatype dt, int root, MPI_Comm comm) { init_sched(); maybe_delay(); tr("bcast", root, -1, comm, count); { int rc_ = PMPI_Bcast(b, count, dt, root, comm); after_collective(); return rc_; } }
 int MPI_Gather(const void* s, int sc, MPI_Datatype st, void* r, int rc, MPI_Datatype rt, int root, MPI_Comm comm) {
-    init_sched(); maybe_delay(); tr("gather", root, -1, comm, sc); return PMPI_Gather(s, sc, st, r, rc, rt, root, comm);
+    init_sched(); maybe_delay(); tr("gather", root, -1, comm, sc); { int rc_ = PMPI_Gather(s, sc, st, r, rc, rt, root, comm); after_collective(); return rc_; }
 }
 int MPI_Gatherv(const void* s, int sc, MPI_Datatype st, void* r, const int* rc, const int* displs, MPI_Datatype rt, int root, MPI_Comm comm) {
-    init_sched(); maybe_delay(); tr("gatherv", root, -1, comm, sc); return PMPI_Gatherv(s, sc, st, r, rc, displs, rt, root, comm);
+    init_sched(); maybe_delay(); tr("gatherv", root, -1, comm, sc); { int rc_ = PMPI_Gatherv(s, sc, st, r, rc, displs, rt, root, comm); after_collective(); return rc_; }
 }
 int MPI_Comm_split(MPI_Comm comm, int color, int key, MPI_Comm* newcomm) { init_sched(); maybe_delay(); tr("comm_split", -1, -1, comm, color); return PMPI_Comm_split(comm, color, key, newcomm); }
+/* wait / test / probe calls put held-back sends on the wire first */
+int MPI_Iprobe(int source, int tag, MPI_Comm comm, int* flag, MPI_Status* status) { init_sched(); flush_deferred(); return PMPI_Iprobe(source, tag, comm, flag, status); }
+int MPI_Wait(MPI_Request* r, MPI_Status* st) { init_sched(); flush_deferred(); return PMPI_Wait(r, st); }
+int MPI_Waitall(int n, MPI_Request* r, MPI_Status* st) { init_sched(); flush_deferred(); return PMPI_Waitall(n, r, st); }
+int MPI_Waitany(int n, MPI_Request* r, int* idx, MPI_Status* st) { init_sched(); flush_deferred(); return PMPI_Waitany(n, r, idx, st); }
+int MPI_Test(MPI_Request* r, int* flag, MPI_Status* st) { init_sched(); flush_deferred(); return PMPI_Test(r, flag, st); }
+int MPI_Testall(int n, MPI_Request* r, int* flag, MPI_Status* st) { init_sched(); flush_deferred(); return PMPI_Testall(n, r, flag, st); }
+int MPI_Finalize(void) {
+    if (sched_on > 0) { flush_deferred(); if (dreq_n) PMPI_Waitall(dreq_n, dreq, MPI_STATUSES_IGNORE); for (int i = 0; i < dreq_n; i++) free(dbuf[i]); dreq_n = 0; }
+    return PMPI_Finalize();
+}
